@@ -91,7 +91,25 @@ def run_case(c):
     if conv == 'array1':
         return outcome(lambda: call(f, arr1))
     if conv == 'array':
-        return outcome(lambda: call(f, arr1))
+        # the case is the middle element of arrays of length 3 whose other elements are in range
+        lo = {n: RANGES[kind][n][0] for n in f}
+        def arr3(name):
+            return lambda v: np.array([lo[name], v, lo[name]], dtype=np.int64)
+        def go():
+            if kind == 'obj':
+                from pydl.pydlutils.sdss import sdss_objid
+                r = sdss_objid(arr3('run')(f['run']), arr3('camcol')(f['camcol']), arr3('field')(f['field']),
+                               arr3('object')(f['object']), rerun=arr3('rerun')(f['rerun']),
+                               skyversion=arr3('skyversion')(f['skyversion']), firstfield=arr3('firstfield')(f['firstfield']))
+            else:
+                from pydl.pydlutils.sdss import sdss_specobjid
+                r = sdss_specobjid(arr3('plate')(f['plate']), arr3('fiber')(f['fiber']), arr3('mjd')(f['mjd']) + 50000,
+                                   arr3('run2d')(f['run2d']), line=arr3('line')(f['line']))
+            r = np.asarray(r)
+            if r.shape != (3,):
+                raise core.MachineryError('array call returned shape %r' % (r.shape,))
+            return r[1:2]
+        return outcome(go)
     if conv == 'lenmismatch':
         which = c['which']
         return outcome(lambda: _mismatch(kind, f, which))
